@@ -527,6 +527,131 @@ fn run_case(case: &Case, root: &Path) -> Outcome {
     out
 }
 
+
+// ------------------------------------------------------------------ WIT directories with dependencies
+//
+// Keys are decided one by one: what a key resolves to in a call with several keys is what it
+// resolves to alone. The layouts of the main enumeration hold independent packages; here the
+// WIT directory of one key depends on (and optionally vendors a copy of) the package of
+// another key, so any state shared between the keys of one call shows.
+
+const WD_KEYS: [&str; 3] = ["ns:types", "ns:app", "ns:other"];
+
+fn wd_materialise(root: &Path, vendored: bool) -> PathBuf {
+    let deps = root.join("deps");
+    let w = |rel: &str, text: &str| {
+        let p = deps.join(rel);
+        std::fs::create_dir_all(p.parent().unwrap()).and_then(|_| std::fs::write(&p, text)).unwrap_or_else(|e| mc_core::machinery_error(&format!("cannot write {}: {e}", p.display())));
+    };
+    w("ns/types/types.wit", "package ns:types;\ninterface t { type id = u32; }\n");
+    w("ns/app/app.wit", "package ns:app;\nworld w { import ns:types/t; }\n");
+    if vendored {
+        // the vendored copy differs from the package served under its own key
+        w("ns/app/deps/types/types.wit", "package ns:types;\ninterface t { type id = u64; }\n");
+    }
+    w("ns/other/other.wit", "package ns:other;\ninterface o { f: func(); }\n");
+    deps
+}
+
+fn wd_reference(deps: &Path, key: &str) -> Result<Vec<u8>, String> {
+    let mut dir = deps.to_path_buf();
+    for seg in key.split(':') {
+        dir.push(seg);
+    }
+    let mut resolve = wit_parser::Resolve::new();
+    let (pkg, _) = resolve.push_dir(&dir).map_err(|e| format!("{e:#}"))?;
+    wit_component::encode(&resolve, pkg).map_err(|e| format!("{e:#}"))
+}
+
+fn wd_run(root: &Path, vendored: bool, list: &[usize], error_on_unknown: bool) -> Vec<(String, String)> {
+    let _ = std::fs::remove_dir_all(root);
+    let deps = wd_materialise(root, vendored);
+    let mut v = Vec::new();
+    // expected: key by key, each on its own
+    let mut expected: Result<Vec<(usize, Vec<u8>)>, String> = Ok(Vec::new());
+    for k in list {
+        match wd_reference(&deps, WD_KEYS[*k]) {
+            Ok(b) => {
+                if let Ok(m) = expected.as_mut() {
+                    m.push((*k, b));
+                }
+            }
+            Err(_) => {
+                if expected.is_ok() {
+                    expected = Err(WD_KEYS[*k].to_string());
+                }
+            }
+        }
+    }
+    let mut keys: IndexMap<BorrowedPackageKey<'_>, miette::SourceSpan> = IndexMap::new();
+    for (i, k) in list.iter().enumerate() {
+        keys.insert(BorrowedPackageKey::from_name_and_version(WD_KEYS[*k], None), (10 * i, 3).into());
+    }
+    let resolver = FileSystemPackageResolver::new(deps.clone(), HashMap::new(), error_on_unknown);
+    let names: Vec<&str> = list.iter().map(|k| WD_KEYS[*k]).collect();
+    let ctxt = format!("keys {names:?} in one call, app {} its dependency, error_on_unknown={error_on_unknown}, resolver build `{FEATURES}`", if vendored { "vendors" } else { "does not vendor" });
+    match (catch(|| resolver.resolve(&keys)), expected) {
+        (Err(p), _) => v.push((format!("C18/wit-dependencies/panic/{}", panic_site(&p)), format!("resolve panicked: {p}; {ctxt}"))),
+        (Ok(Ok(map)), Ok(exp)) => {
+            for (k, want) in exp {
+                match map.get(&BorrowedPackageKey::from_name_and_version(WD_KEYS[k], None)) {
+                    None => v.push(("C18/wit-dependencies/key-missing-from-result".into(), format!("`{}` is not in the result; {ctxt}", WD_KEYS[k]))),
+                    Some(b) if *b != want => v.push((
+                        "C18/wit-dependencies/bytes-differ-from-the-key-resolved-alone".into(),
+                        format!("`{}` resolves to other bytes than its directory alone encodes to; {ctxt}", WD_KEYS[k]),
+                    )),
+                    Some(_) => {}
+                }
+            }
+        }
+        (Ok(Ok(_)), Err(name)) => v.push((
+            "C18/wit-dependencies/invalid-directory-accepted".into(),
+            format!("the directory of `{name}` is not a valid WIT package on its own (missing dependency) but the call succeeded; {ctxt}"),
+        )),
+        (Ok(Err(e)), Ok(_)) => v.push((
+            "C18/wit-dependencies/valid-directories-rejected".into(),
+            format!("every key's directory is a valid WIT package on its own but the call failed: {e}: {}; {ctxt}", std::error::Error::source(&e).map(|s| format!("{s:#}")).unwrap_or_default()),
+        )),
+        (Ok(Err(e)), Err(name)) => {
+            let got = match &e {
+                wac_resolver::Error::PackageResolutionFailure { name, .. } => name.clone(),
+                other => format!("{other}"),
+            };
+            if got != name {
+                v.push(("C18/wit-dependencies/wrong-key-reported".into(), format!("expected PackageResolutionFailure for `{name}`, got {e}; {ctxt}")));
+            }
+        }
+    }
+    let _ = std::fs::remove_dir_all(root);
+    v
+}
+
+fn wd_cases() -> Vec<(bool, Vec<usize>, bool)> {
+    let mut lists: Vec<Vec<usize>> = Vec::new();
+    for a in 0..3 {
+        lists.push(vec![a]);
+        for b in 0..3 {
+            if b != a {
+                lists.push(vec![a, b]);
+                for c in 0..3 {
+                    if c != a && c != b {
+                        lists.push(vec![a, b, c]);
+                    }
+                }
+            }
+        }
+    }
+    let mut v = Vec::new();
+    for vendored in [true, false] {
+        for l in &lists {
+            for eou in [false, true] {
+                v.push((vendored, l.clone(), eou));
+            }
+        }
+    }
+    v
+}
+
 // ------------------------------------------------------------------ enumeration
 
 const VERSIONS: [Option<&str>; 4] = [None, Some("1.2.3"), Some("1.2.3-rc.1"), Some("0.1.0+b.7")];
@@ -641,6 +766,18 @@ fn half(thorough: bool) -> Partial {
             p.violation(fp, what, serde_json::to_value(case).unwrap());
         }
     }
+    // WIT directories that depend on each other, all ordered key lists
+    let wd = wd_cases();
+    let wd_out: Vec<Vec<(String, String)>> = wd.par_iter().enumerate().map(|(i, (ven, l, eou))| wd_run(&root.join(format!("wd{i}")), *ven, l, *eou)).collect();
+    for ((ven, l, eou), vs) in wd.iter().zip(wd_out) {
+        p.evaluations += 1;
+        p.nontrivial += 1;
+        p.bump("keys_per_call", l.len().to_string());
+        p.bump("wit_dependency_family", format!("{} keys, {}", l.len(), if *ven { "vendored" } else { "not vendored" }));
+        for (fp, what) in vs {
+            p.violation(fp, what, json!({"family": "wit-dependencies", "features": FEATURES, "vendored": ven, "keys": l, "error_on_unknown": eou}));
+        }
+    }
     let _ = std::fs::remove_dir_all(&root);
     p
 }
@@ -654,6 +791,19 @@ pub fn run(args: &[String]) {
     }
     let mut ctx = Ctx::new("C18", "exploration", args);
     if let Some(case) = ctx.replay_case().cloned() {
+        if case["family"] == "wit-dependencies" {
+            if case["features"] != FEATURES {
+                common::delegate_replay("C18", args);
+            }
+            let root = common::tmp_root("C18-replay");
+            let list: Vec<usize> = serde_json::from_value(case["keys"].clone()).unwrap_or_default();
+            let vs = wd_run(&root.join("wd0"), case["vendored"].as_bool().unwrap_or(true), &list, case["error_on_unknown"].as_bool().unwrap_or(true));
+            let _ = std::fs::remove_dir_all(&root);
+            for (fp, what) in vs {
+                ctx.violation(fp, what, case.clone());
+            }
+            ctx.finish(Map::new(), vec![]);
+        }
         let case: Case = serde_json::from_value(case).unwrap_or_else(|e| mc_core::machinery_error(&format!("bad C18 case: {e}")));
         if case.features != FEATURES {
             common::delegate_replay("C18", args);
@@ -709,7 +859,7 @@ pub fn run(args: &[String]) {
     cov.insert("keys_per_call".into(), json!(hist.get("keys_per_call").cloned().unwrap_or_default()));
     cov.insert(
         "rule".into(),
-        json!("full product: package key (names of 1-3 segments x {unversioned, 1.2.3, 1.2.3-rc.1, 0.1.0+b.7}; quick: ns:name, ns:name:sub, ns:name@1.2.3) x P,P.wasm,P.wat each in {absent,file,directory} x override in {none,.wasm,.wat,.wit,dangling,directory,other-name} x error_on_unknown x resolver build {wit; wit,wat}, plus all ordered pairs of distinct keys over 6 representative layouts in one resolve call; every file holds a distinct component / every directory a distinct WIT package (also at the paths Path::set_extension would produce), so the loaded source is identified from the returned bytes; each layout is materialised in its own directory and FileSystemPackageResolver::resolve is compared with the decision table of DESIGN A.5; non-trivial = at least one candidate path or an override is present (every enumerated case is distinct by construction)"),
+        json!("full product: package key (names of 1-3 segments x {unversioned, 1.2.3, 1.2.3-rc.1, 0.1.0+b.7}; quick: ns:name, ns:name:sub, ns:name@1.2.3) x P,P.wasm,P.wat each in {absent,file,directory} x override in {none,.wasm,.wat,.wit,dangling,directory,other-name} x error_on_unknown x resolver build {wit; wit,wat}, plus all ordered pairs of distinct keys over 6 representative layouts in one resolve call, plus all ordered lists of 1-3 keys over three WIT directories of which one depends on (and optionally vendors a differing copy of) another (each key must resolve to what its directory alone encodes to); every file holds a distinct component / every directory a distinct WIT package (also at the paths Path::set_extension would produce), so the loaded source is identified from the returned bytes; each layout is materialised in its own directory and FileSystemPackageResolver::resolve is compared with the decision table of DESIGN A.5; non-trivial = at least one candidate path or an override is present (every enumerated case is distinct by construction)"),
     );
     ctx.finish(
         cov,
